@@ -9,6 +9,10 @@
 //	                                        calls recover() (the only placement Go honours); indirect = it does
 //	                                        not, but a function it calls (resolved one level: via) does
 //	Call  func seq callee                   every other call expression (callee resolved as far as go/ast allows)
+//	Runs  func via                          func is the target of some `go` statement and a USER function can be reached
+//	                                        from it through declared functions of the module: a call of a value of a named
+//	                                        function type (dyn:, e.g. next(ctx, ...) of a plugin), of a func-typed
+//	                                        parameter or local (param:), or reflect.Value.Call; via = where and what
 //	Unresolved file func src                a go/defer whose callee could not be classified; no theorem accepts it
 //
 // Names are <pkgdir relative to rpc>.<Type>.<method> / <pkgdir>.<func>; see gosrc.go for the other forms.
@@ -27,11 +31,21 @@ var recoverAnchors = []struct {
 	pkg   string
 	files []string
 }{
-	{"rpc/core", []string{"error.go", "service.go"}},
+	{"rpc/core", []string{"client.go", "error.go", "service.go"}},
 	{"rpc/http", []string{"handler.go", "transport.go"}},
 	{"rpc/http/fasthttp", []string{"transport.go"}},
 	{"rpc/mock", []string{"agent.go", "handler.go", "transport.go"}},
-	{"rpc/plugins/reverse", []string{"provider.go"}},
+	// every standard plugin: a plugin may move the rest of the call onto a goroutine of its own
+	{"rpc/plugins/circuitbreaker", nil},
+	{"rpc/plugins/cluster", nil},
+	{"rpc/plugins/forward", nil},
+	{"rpc/plugins/limiter", nil},
+	{"rpc/plugins/loadbalance", nil},
+	{"rpc/plugins/log", nil},
+	{"rpc/plugins/oneway", nil},
+	{"rpc/plugins/push", nil},
+	{"rpc/plugins/reverse", nil},
+	{"rpc/plugins/timeout", nil},
 	{"rpc/socket", []string{"handler.go", "transport.go"}},
 	{"rpc/udp", []string{"handler.go", "transport.go"}},
 	{"rpc/websocket", []string{"handler.go", "transport.go"}},
@@ -239,7 +253,17 @@ func genRecoverTable(repo string) (string, map[string]interface{}, error) {
 	for _, a := range recoverAnchors {
 		path := w.module + "/" + a.pkg
 		p := w.load(path)
-		for _, fn := range a.files {
+		files := a.files
+		if files == nil && p != nil { // whole package
+			for fn := range p.files {
+				files = append(files, fn)
+			}
+			sort.Strings(files)
+		}
+		if files == nil {
+			g.entries = append(g.entries, rtEntry{kind: "Unresolved", file: strings.TrimPrefix(a.pkg, "rpc/"), fn: "", target: "anchor package missing or unparsable"})
+		}
+		for _, fn := range files {
 			label := filepath.ToSlash(filepath.Join(strings.TrimPrefix(a.pkg, "rpc/"), fn))
 			if p == nil || p.files[fn] == nil {
 				g.entries = append(g.entries, rtEntry{kind: "Unresolved", file: label, fn: "", target: "anchor file missing or unparsable"})
@@ -263,6 +287,7 @@ func genRecoverTable(repo string) (string, map[string]interface{}, error) {
 			}
 		}
 	}
+	g.addRuns()
 	var b strings.Builder
 	b.WriteString("(* GENERATED by /verif/tools/gotables (recover_table.go) from the rpc sources of the tree under check.\n")
 	b.WriteString("   Do not edit: rewritten on every check run when the sources change.  Meaning of the entries:\n")
@@ -273,6 +298,7 @@ func genRecoverTable(repo string) (string, map[string]interface{}, error) {
 	b.WriteString("| Go (file func : string) (seq : nat) (target : string)\n")
 	b.WriteString("| Defer (file func : string) (seq : nat) (toplevel : bool) (callee : string) (direct indirect : bool) (via : string)\n")
 	b.WriteString("| Call (func : string) (seq : nat) (callee : string)\n")
+	b.WriteString("| Runs (func via : string)\n")
 	b.WriteString("| Unresolved (file func src : string).\n\n")
 	b.WriteString("Definition table : list entry := [\n")
 	counts := map[string]int{}
@@ -289,6 +315,8 @@ func genRecoverTable(repo string) (string, map[string]interface{}, error) {
 				coqStr(e.target), coqBool(e.direct), coqBool(e.indirect), coqStr(e.via))
 		case "Call":
 			s = fmt.Sprintf("  Call %s %d %s", coqStr(e.fn), e.seq, coqStr(e.target))
+		case "Runs":
+			s = fmt.Sprintf("  Runs %s %s", coqStr(e.fn), coqStr(e.target))
 		case "Unresolved":
 			s = fmt.Sprintf("  Unresolved %s %s %s", coqStr(e.file), coqStr(e.fn), coqStr(e.target))
 		}
@@ -316,4 +344,55 @@ func genRecoverTable(repo string) (string, map[string]interface{}, error) {
 	stats["unresolved_list"] = unres
 	stats["calls_with_unresolved_callee"] = qcalls
 	return b.String(), stats, nil
+}
+
+// isUserCall: the callee is a function value supplied from outside the library
+var bareLocal = regexp.MustCompile(`^\?[A-Za-z_][A-Za-z0-9_]*$`)
+
+func isUserCall(callee string) bool {
+	return strings.HasPrefix(callee, "dyn:") || strings.HasPrefix(callee, "param:") ||
+		(strings.HasPrefix(callee, "ext:reflect.") && strings.HasSuffix(callee, ".Call")) ||
+		bareLocal.MatchString(callee) // a local function value of unknown origin: callback(...), handler(...)
+}
+
+// addRuns: for every target of a `go` statement, search the calls recorded in the table (functions and literals of
+// the anchor files, followed through declared functions and immediately called literals, depth <= 6) for a user call.
+func (g *rtGen) addRuns() {
+	calls := map[string][]string{}
+	for _, e := range g.entries {
+		if e.kind == "Call" {
+			calls[e.fn] = append(calls[e.fn], e.target)
+		}
+	}
+	var find func(f string, depth int, seen map[string]bool) string
+	find = func(f string, depth int, seen map[string]bool) string {
+		if depth > 6 || seen[f] {
+			return ""
+		}
+		seen[f] = true
+		for _, c := range calls[f] {
+			if isUserCall(c) {
+				return f + ": " + c
+			}
+		}
+		for _, c := range calls[f] {
+			if _, ok := calls[c]; ok {
+				if v := find(c, depth+1, seen); v != "" {
+					return v
+				}
+			}
+		}
+		return ""
+	}
+	done := map[string]bool{}
+	var runs []rtEntry
+	for _, e := range g.entries {
+		if e.kind == "Go" && !done[e.target] {
+			done[e.target] = true
+			if v := find(e.target, 0, map[string]bool{}); v != "" {
+				runs = append(runs, rtEntry{kind: "Runs", fn: e.target, target: v})
+			}
+		}
+	}
+	g.entries = append(g.entries, runs...)
 }
